@@ -51,3 +51,16 @@ package serializers
 //@ func serializerCDXState.components
 //@   inline
 //@   invariant L0: cdxStateOK(s)
+
+// ---------------------------------------------------------------------------
+// C03 (no silent drop): every non-file node yields an SPDX package carrying its
+// identifier; C01: where each attribute of the node lands in the package
+// ---------------------------------------------------------------------------
+//@ fieldset-of spdx/tools-golang/spdx/v2/v2_3.Package: PackageSPDXIdentifier
+
+//@ func SPDX23.buildPackages
+//@   props C03, C01
+//@   inline
+//@   requires [C03:pre] bom != nil && bom.NodeList != nil && sbom.validNL(bom.NodeList)
+//@   ensures [C03:spdx:packages:complete] result1 == nil ==> (forall i int :: 0 <= i && i < len(bom.NodeList.Nodes) && bom.NodeList.Nodes[i].Type != 1 ==> (bom.NodeList.Nodes[i].Id in fieldset(result0, PackageSPDXIdentifier)))
+//@   invariant L0: [C03:inv] forall i int :: 0 <= i && i < _i && bom.NodeList.Nodes[i].Type != 1 ==> (bom.NodeList.Nodes[i].Id in fieldset(packages, PackageSPDXIdentifier))
